@@ -207,11 +207,48 @@ def judge_config(path, depth, seeds):
             m = lockstep(bv, hv, seeds[:1], 2)
             if m:
                 return f'non-square variant {var["reset_function"]} differs from the hand-assembled one: {m}'
+    for label, var in extra_variants(before):
+        var_before = copy.deepcopy(var)
+        try:
+            bv = factory_env_from_data(var)
+        except Exception as e:  # noqa: BLE001
+            return f'variant ({label}): building raised {type(e).__name__}: {e}'
+        if var != var_before:
+            return f'variant ({label}): building modified the input data tree'
+        try:
+            bv2 = factory_env_from_data(var)
+        except Exception as e:  # noqa: BLE001
+            return f'variant ({label}): building a second time from the same data raised {type(e).__name__}: {e}'
+        try:
+            hv = ASM.assemble(copy.deepcopy(var_before))
+        except ASM.AssembleError as e:
+            return f'INTERNAL: hand-assembler rejects variant ({label}): {e}'
+        m = lockstep(bv, hv, seeds[:1], 2) or lockstep(bv2, hv, seeds[:1], 1)
+        if m:
+            return f'variant ({label}) differs from the hand-assembled one: {m}'
     again = factory_env_from_data(copy.deepcopy(before))
     m = lockstep(built, again, seeds[:1], min(depth, 2))
     if m:
         return f'building twice gives different environments: {m}'
     return None
+
+
+def extra_variants(data):
+    """further valid variants of a shipped configuration: (1) the action list in a non-enum order, (2) the observation
+    function expressed through from_visibility with a nested visibility function specification"""
+    out = []
+    v = copy.deepcopy(data)
+    acts = v.get('action_space') or [a.name for a in Action]
+    v['action_space'] = list(reversed(acts))
+    out.append(('reversed action_space', v))
+    v = copy.deepcopy(data)
+    of = v['observation_function']
+    if of.get('name') in ('partially_occluded', 'raytracing', 'fully_transparent'):
+        v['observation_function'] = {'name': 'from_visibility', 'area': of['area'],
+                                     'visibility_function': {'name': of['name'] if of['name'] != 'raytracing' else 'raytracing',
+                                                             **({'absolute_counts': False, 'threshold': 0.5} if of['name'] == 'raytracing' else {})}}
+        out.append(('from_visibility with a nested visibility function', v))
+    return out
 
 
 def nonsquare_variant(data):
